@@ -1,25 +1,40 @@
 import SamVerif.Model.Layout
+import SamVerif.Props.C12
 /-! # C12 — enum layout choice vs. demand order (`layout_order_independent`) -/
 namespace SamVerif.Layout
 
-/-- `class A(NilA, ConsA(B))`, `class B(NilB, ConsB(A))` (names 0 and 1). -/
-def mutualDefs : Defs := [(0, [[], [.id 1]]), (1, [[], [.id 0]])]
+/-- `class A(ConsA(B))`, `class B(NilB, ConsB(A))` (names 0 and 1). -/
+def mutualDefs : Defs := [(0, [[.id 1]]), (1, [[], [.id 0]])]
 
 /- Full-strength statement, **false** on the unchanged code:
    `∀ defs roots roots', roots'.Perm roots → ∀ n, layoutOf defs roots' n = layoutOf defs roots n`. -/
 
-/-- **layout_order_independent_counterexample** (known finding C12-F3; the roots are the
-`Main.main`s of all modules in `HashMap` order, hir_lowering.rs:1281): the two demand orders of two
-mutually recursive enums give different layouts for both types. -/
+/-- **layout_order_independent_counterexample**: the two demand orders of two mutually recursive
+enums give different layouts (`ConsB` is `Unboxed` only when `A` is finished before `B`'s variant
+is decided).  Before /repo e715c2f the difference was observable behaviour (finding C12-F3, witness
+`A(NilA, ConsA(B))`, `B(NilB, ConsB(A))`); after it both layouts are sound representations, and
+since /repo 15327a3 the roots are enumerated in module-name order
+(`layout_sorted_roots_perm_invariant`), so the choice no longer depends on the hash seed. -/
 theorem layout_order_independent_counterexample :
     ∃ (defs : Defs) (roots roots' : List Nat) (n : Nat), roots'.Perm roots ∧
       layoutOf defs roots' n ≠ layoutOf defs roots n :=
-  ⟨mutualDefs, [0, 1], [1, 0], 0, List.Perm.swap 0 1 [], by decide⟩
+  ⟨mutualDefs, [0, 1], [1, 0], 1, List.Perm.swap 0 1 [], by decide⟩
 
-example : layoutOf mutualDefs [0, 1] 0 = some [.int31, .boxed] ∧
-    layoutOf mutualDefs [0, 1] 1 = some [.int31, .unboxed] ∧
-    layoutOf mutualDefs [1, 0] 0 = some [.int31, .unboxed] ∧
-    layoutOf mutualDefs [1, 0] 1 = some [.int31, .boxed] := by decide
+example : layoutOf mutualDefs [0, 1] 0 = some [.boxed] ∧
+    layoutOf mutualDefs [0, 1] 1 = some [.int31, .boxed] ∧
+    layoutOf mutualDefs [1, 0] 0 = some [.boxed] ∧
+    layoutOf mutualDefs [1, 0] 1 = some [.int31, .unboxed] := by decide
+
+/-- **layout_sorted_roots_perm_invariant** (/repo 15327a3): the specialisation roots are enumerated
+in module-name order, so the layouts are the same for every iteration order of the module map. -/
+theorem layout_sorted_roots_perm_invariant (defs : Defs) (roots roots' : List Nat)
+    (hp : roots'.Perm roots) :
+    layoutAll defs (SamVerif.ErrorSet.ofList SamVerif.ErrorSet.natLt roots') =
+      layoutAll defs (SamVerif.ErrorSet.ofList SamVerif.ErrorSet.natLt roots) := by
+  rw [SamVerif.ErrorSet.sorted_enumeration_perm_invariant SamVerif.ErrorSet.natLt_strictTotal roots roots' hp]
+
+example : layoutAll mutualDefs (SamVerif.ErrorSet.ofList SamVerif.ErrorSet.natLt [1, 0]) =
+    layoutAll mutualDefs (SamVerif.ErrorSet.ofList SamVerif.ErrorSet.natLt [0, 1]) := by decide
 
 theorem stepV_fold_no_arity_one (vs vs' : List (Nat × Bool)) (s : LoopSt)
     (ha : vs.map (·.1) = vs'.map (·.1)) (h1 : ∀ v ∈ vs, v.1 ≠ 1) :
